@@ -472,7 +472,8 @@ def all_differences(a, b, path='', out=None, limit=40):
 RE_ENTRY = ['lookup', 'lookup1', 'queryAdapter', 'adapter_hook', 'lookupAll', 'subscriptions', 'queryMultiAdapter', 'subscribers',
             'names']
 RE_POINT = ['uncached-before', 'uncached-after', 'lazy-required', 'providedBy-descriptor', 'factory', 'provided-hash',
-            'value-destructor', 'name-hash', 'required-key-eq', 'unhashable-provided-error-path']
+            'value-destructor', 'name-hash', 'required-key-eq', 'unhashable-provided-error-path',
+            'super-subclass-computed-self', 'uncached-raises-error-path']
 RE_MUT = ['register-more-specific', 'unregister', 'subscribe', 'changed-only', 'rebase', 'register-then-lookup-other-key']
 RE_WARM = ['cold', 'warm-other-key', 'warm-same-key-then-changed']
 
@@ -527,6 +528,14 @@ def run_reent(program):
         if mut != 0 or warm != 0:
             return None
         return _reent_error_path(flav, en)
+    if pt == 'super-subclass-computed-self':
+        if mut != 0 or warm != 0 or en not in ('queryAdapter', 'adapter_hook', 'queryMultiAdapter'):
+            return None
+        return _reent_super_self(flav, en)
+    if pt == 'uncached-raises-error-path':
+        if mut != 0 or warm != 0:
+            return None
+        return _reent_uncached_raises(flav, en)
 
     state = dict(fired=False, witness=[], hook=None, inner=None)
 
@@ -848,6 +857,137 @@ def _reent_error_path(flav, en):
             pass
     gc.collect()
     out['refcount_growth'] = max(sys.getrefcount(p) - b for p, b in zip(probes, base))
+    return out
+
+
+def _reent_super_self(flav, en):
+    """A subclass of super whose __self__ is computed: the object handed to the factory must be alive."""
+    from zope.interface import Interface, implementer
+    from zope.interface.adapter import AdapterRegistry, VerifyingAdapterRegistry
+    from zope.interface.interface import InterfaceClass
+    IR = InterfaceClass('IR', (Interface,), {}, __module__='vp_reent')
+    IP = InterfaceClass('IP', (Interface,), {}, __module__='vp_reent')
+    K = implementer(IR)(type('K', (object,), {}))
+    K2 = type('K2', (K,), {})
+
+    class Fresh:
+        marker = 'fresh-object'
+
+    class S(super):
+        @property
+        def __self__(self):
+            return Fresh()            # a temporary nobody else holds
+
+    seen = []
+
+    def factory(*obs):
+        junk = [dict() for _ in range(40)]     # noqa: F841 - recycle whatever memory was just released
+        seen.append([getattr(type(o), '__name__', '?') for o in obs])
+        return ('made', 'f')
+    reg = (AdapterRegistry if flav == 0 else VerifyingAdapterRegistry)()
+    reg.register([IR], IP, '', factory)
+    reg.register([IR, IR], IP, '', factory)
+    k = K2()
+    out = dict(before=['made', 'f'], after=['made', 'f'], fired=True, witness_dirty=[], refcount_growth=0)
+    try:
+        for _ in range(5):
+            s = S(K2, k)
+            if en == 'queryAdapter':
+                r = reg.queryAdapter(s, IP, '')
+            elif en == 'adapter_hook':
+                r = reg.adapter_hook(IP, s, '')
+            else:
+                r = reg.queryMultiAdapter([s, S(K2, k)], IP, '')
+        out['result'], out['exception'] = _tagval(list(r)) if r is not None else None, None
+    except Exception as e:   # noqa
+        out['result'], out['exception'] = None, type(e).__name__ + ': ' + str(e)[:80]
+    out['second'] = out['after']
+    bad = [x for x in seen if any(n != 'Fresh' for n in x)]
+    if bad:
+        out['witness_dirty'] = ['the factory received %r instead of the object computed by __self__' % (bad[0],)]
+    return out
+
+
+def _reent_uncached_raises(flav, en):
+    """The uncached method raises after an earlier answer for the same provided interface was cached: once the
+    caches are released nothing cached may stay referenced (the owned cache reference is released on the error path)."""
+    import gc
+    import sys
+    from zope.interface import Interface, implementer, providedBy
+    from zope.interface.adapter import (AdapterLookup, AdapterRegistry, VerifyingAdapterLookup, VerifyingAdapterRegistry)
+    from zope.interface.interface import InterfaceClass
+    base_lookup = AdapterLookup if flav == 0 else VerifyingAdapterLookup
+    boom = [False]
+
+    class HookedLookup(base_lookup):
+        def _uncached_lookup(self, required, provided, name=''):
+            if boom[0]:
+                raise RuntimeError('uncached')
+            return base_lookup._uncached_lookup(self, required, provided, name)
+
+        def _uncached_lookupAll(self, required, provided):
+            if boom[0]:
+                raise RuntimeError('uncached')
+            return base_lookup._uncached_lookupAll(self, required, provided)
+
+        def _uncached_subscriptions(self, required, provided):
+            if boom[0]:
+                raise RuntimeError('uncached')
+            return base_lookup._uncached_subscriptions(self, required, provided)
+
+    class Reg(AdapterRegistry if flav == 0 else VerifyingAdapterRegistry):
+        LookupClass = HookedLookup
+    IR = InterfaceClass('IR', (Interface,), {}, __module__='vp_reent')
+    IR2 = InterfaceClass('IR2', (Interface,), {}, __module__='vp_reent')
+    IP = InterfaceClass('IP', (Interface,), {}, __module__='vp_reent')
+    K = implementer(IR)(type('K', (object,), {}))
+    K2 = implementer(IR2)(type('K2', (object,), {}))
+    ob, ob2 = K(), K2()
+    probe = _Fac('probe')
+    reg = Reg()
+    gc.collect()
+    base = sys.getrefcount(probe)
+    reg.register([IR], IP, '', probe)
+    reg.register([IR, IR], IP, '', probe)
+    reg.subscribe([IR], IP, probe)
+
+    def call(o):
+        spec = providedBy(o)
+        if en == 'lookup':
+            return reg.lookup([spec], IP, '')
+        if en == 'lookup1':
+            return reg.lookup1(spec, IP, '')
+        if en == 'queryAdapter':
+            return reg.queryAdapter(o, IP, '')
+        if en == 'adapter_hook':
+            return reg.adapter_hook(IP, o, '')
+        if en == 'lookupAll':
+            return reg.lookupAll([spec], IP)
+        if en == 'names':
+            return reg.names([spec], IP)
+        if en == 'subscriptions':
+            return reg.subscriptions([spec], IP)
+        if en == 'queryMultiAdapter':
+            return reg.queryMultiAdapter([o, o], IP, '')
+        return reg.subscribers([o], IP)
+    out = dict(before='ok', after='ok', fired=True, witness_dirty=[], result='ok', second='ok', exception=None)
+    call(ob)                       # caches an answer that references `probe`
+    boom[0] = True
+    raised = 0
+    for _ in range(10):
+        try:
+            call(ob2)              # same provided interface, another key: cache miss, the uncached method raises
+        except RuntimeError:
+            raised += 1
+    boom[0] = False
+    if raised != 10:
+        out['exception'] = 'the error raised by the uncached method did not propagate (%d of 10)' % raised
+    reg.unregister([IR], IP, '')
+    reg.unregister([IR, IR], IP, '')
+    reg.unsubscribe([IR], IP, probe)
+    reg._v_lookup.changed(None)
+    gc.collect()
+    out['refcount_growth'] = (sys.getrefcount(probe) - base) * 5     # any surviving reference is a leak
     return out
 
 
